@@ -192,6 +192,31 @@ func ruleXZReaderChecks(c *Ctx, r *Report, prefix string) {
 	if fn := c.Func("", "streamReader.readTail"); fn != nil && readIndexBody != nil && fFooterFlags != nil && fHeaderFlags != nil && fIndexSize != nil && fSRIndex != nil {
 		o := newOb(c, r, rule, fn)
 		rib := roleCallTo(readIndexBody, nil, roleLenOf(roleFieldLoad(fSRIndex)))
+		// readIndexBody may have become a wrapper around a new function that readTail calls directly
+		// (appendIndexBody(dst, r, n)): the same call, with the expected count at the forwarded position
+		// and a destination that is not the measured index itself
+		if fw, argOf := forwardee(c, readIndexBody); fw != nil && argOf[1] >= 0 {
+			args := make([]role, len(fw.Params))
+			args[argOf[1]] = roleLenOf(roleFieldLoad(fSRIndex))
+			direct := roleCallTo(fw, args...)
+			rib = roleOr(rib, direct)
+			for _, b := range theCtx.GB(fn) {
+				for _, ins := range b.Instrs {
+					call, isC := ins.(*ssa.Call)
+					if !isC || !direct(call) {
+						continue
+					}
+					for i, a := range call.Call.Args {
+						if _, isSl := a.Type().Underlying().(*types.Slice); !isSl || i == argOf[0] {
+							continue
+						}
+						r.Check(isNilConst(a) || freshSlice(a), rule, "V13-stored-index-fresh:"+FnName(fn), c.InstrPos(call),
+							"the stored records are read into storage of their own",
+							"the stored index records are read into a slice that is not freshly allocated: if it shares storage with the measured records (r.index[:0]) the comparison of measured and stored records compares the stored index with itself")
+					}
+				}
+			}
+		}
 		o.rel("V10-footer-vs-header-flags", roleFieldLoad(fFooterFlags), roleFieldLoad(fHeaderFlags), token.NEQ, "footer stream flags != header stream flags")
 		o.rel("V11-backward-size", roleFieldLoad(fIndexSize), roleBinOp(token.ADD, roleExtract(rib, 1), roleConst(1)), token.NEQ,
 			"backward size in the footer != measured index size (n + 1 indicator byte)")
@@ -1209,4 +1234,42 @@ func blockReaches(a, b *ssa.BasicBlock) bool {
 		stack = append(stack, x.Succs...)
 	}
 	return false
+}
+
+// forwardee: fn is a thin wrapper `return g(..., params ...)` around a new function g; argOf[i] is
+// the position at which fn's i-th parameter is handed to g (-1: not handed on).
+func forwardee(c *Ctx, fn *ssa.Function) (*ssa.Function, []int) {
+	if fn == nil || len(fn.Blocks) != 1 {
+		return nil, nil
+	}
+	var call *ssa.Call
+	for _, ins := range fn.Blocks[0].Instrs {
+		switch x := ins.(type) {
+		case *ssa.Call:
+			if call != nil {
+				return nil, nil
+			}
+			call = x
+		case *ssa.Extract, *ssa.Return, *ssa.DebugRef:
+		default:
+			return nil, nil
+		}
+	}
+	if call == nil {
+		return nil, nil
+	}
+	g := call.Call.StaticCallee()
+	if g == nil || !c.IsNew(g) {
+		return nil, nil
+	}
+	argOf := make([]int, len(fn.Params))
+	for i, p := range fn.Params {
+		argOf[i] = -1
+		for j, a := range call.Call.Args {
+			if a == ssa.Value(p) {
+				argOf[i] = j
+			}
+		}
+	}
+	return g, argOf
 }
